@@ -67,6 +67,7 @@ type Contract struct {
 	Lemmas   []*Clause
 	Params   []string // explicit parameter names (for trusted contracts whose export data lacks names)
 	Results  []string
+	Monitors []*SinkSpec // Pattern = owner expression text
 	LitRequires map[int][]*Clause // assumptions on the parameters of the N-th function literal
 }
 
@@ -309,7 +310,7 @@ func (cs *ContractSet) loadContractFile(path, pkgPath string) error {
 	}
 	keywords := map[string]bool{"props": true, "theory": true, "opt": true, "requires": true, "ensures": true,
 		"modifies": true, "loop": true, "let": true, "kf": true, "trusted": true, "pure": true, "reveal": true,
-		"separated": true, "sink": true, "lemma": true, "params": true, "results": true, "lit": true}
+		"separated": true, "sink": true, "lemma": true, "params": true, "results": true, "lit": true, "monitor": true}
 	for _, rl := range lines {
 		t := rl.text
 		if t == "" {
@@ -441,6 +442,9 @@ func qualifyFuncName(name, pkg string) string {
 	// forms: Func | (*T).M | (T).M | T.M | pkg.Func (library)
 	if pkg == "" {
 		return name
+	}
+	if strings.HasPrefix(name, "field:") {
+		return "field:" + pkg + "." + strings.TrimPrefix(name, "field:")
 	}
 	if strings.HasPrefix(name, "(*") {
 		i := strings.Index(name, ")")
@@ -614,6 +618,21 @@ func (cs *ContractSet) addClause(cur *Contract, kind string, loop int, text, fil
 			return err
 		}
 		cur.KFs = append(cur.KFs, &KFSpec{ID: fs[0], Label: c.Label, When: c})
+	case "monitor":
+		// monitor <owner> invariant <expr> : the object <owner> is protected by
+		// its mutex; the invariant holds whenever the mutex is free
+		i := strings.Index(text, " invariant ")
+		if i < 0 {
+			return fmt.Errorf("%s:%d: monitor wants `owner invariant expr`", file, line)
+		}
+		c, err := cs.mkClause(strings.TrimSpace(text[i+11:]), file, line)
+		if err != nil {
+			return err
+		}
+		if c.Label == "" {
+			c.Label = fmt.Sprintf("m%d", len(cur.Monitors)+1)
+		}
+		cur.Monitors = append(cur.Monitors, &SinkSpec{Pattern: strings.TrimSpace(text[:i]), C: c})
 	case "sink":
 		// sink <pattern> requires <expr>
 		i := strings.Index(text, " requires ")
